@@ -45,6 +45,10 @@ def obligations(tier, seed):
     for n in (75, 76, 255, 256, 511, 512, 520):
         obs.append(dict(name='run/long-item-%d/out' % n, kind='run', script='OP_NOP', args=[('L', n)], mode='out', opts=[]))
     obs.append(dict(name='run/long-items-520-1-520/in', kind='run', script='OP_SWAP', args=[('L', 520), 1, ('L', 519)], mode='in', opts=[]))
+    # stack arguments whose value is the empty vector ("0x", "0", ""): they are items like any other (seed C08-5 skipped them)
+    for j, ea in enumerate([0, ('s', '0', []), ('s', '', [])]):
+        obs.append(dict(name='run/OP_DEPTH/empty-arg-%d/out' % j, kind='run', script='OP_DEPTH', args=[ea, 1], mode='out', opts=[]))
+        obs.append(dict(name='run/OP_SIZE/empty-arg-%d/in' % j, kind='run', script='OP_SIZE', args=[1, ea], mode='in', opts=[]))
     obs.append(dict(name='verbose-refused', kind='verbose', script='OP_1', args=[], mode='out', opts=['-v']))
     return obs
 
@@ -73,6 +77,8 @@ def build_args(ob, V=None):
                 for c in cs: assume.append(z3.And(z3.UGE(c, 48), z3.ULE(c, 57)))
                 assume.append(cs[0] != 48)
             args.append(cs); arg_syms.append(('dec', cs))
+        elif isinstance(a, tuple) and a[0] == 's':
+            args.append(list(a[1].encode())); arg_syms.append(('lit', list(a[2])))
         elif isinstance(a, tuple) and a[0] == 'L':
             # long item: all bytes concrete except the last one (the line printed for it is 2n characters long)
             cs = hexchars('a%d' % i, 1); full = list(b'ab' * (a[1] - 1)) + cs; args.append(list(b'0x') + full); arg_syms.append(('hex', full)); long_syms.append(cs)
@@ -99,7 +105,8 @@ def reference(ctx, ob, toks, sc_syms, arg_syms):
         else: script.append(C16.NAMES[t])
     stack = []
     for kind, cs in arg_syms:
-        if kind == 'hex': stack.append([z3.simplify((C07.hexv(cs[2 * k]) << 4) | C07.hexv(cs[2 * k + 1])) for k in range(len(cs) // 2)])
+        if kind == 'lit': stack.append(list(cs))
+        elif kind == 'hex': stack.append([z3.simplify((C07.hexv(cs[2 * k]) << 4) | C07.hexv(cs[2 * k + 1])) for k in range(len(cs) // 2)])
         else:
             v = z3.BitVecVal(0, 64)
             for c in cs: v = v * 10 + z3.ZeroExt(56, R.B(c) - 48)
